@@ -16,10 +16,11 @@ COQ_FILES = ["FA/Proofs/SimplifyFacts.v", "FA/Proofs/EvalAgree.v", "FA/Proofs/Si
              "FA/Proofs/SimplifyTotal.v", "FA/Proofs/SimplifyInv.v", "FA/Proofs/BindArgs.v", "FA/Proofs/SimplifyRules.v",
              "FA/Proofs/SimplifySound.v", "FA/Properties/C02.v"]
 
-LEVEL = ("Coq theorems about the executable model `simp` of simplify_chained_calls (Model/Simplify.v): every rewrite rule is "
-         "semantically sound for all lambdas, all backends and all datasets (fusion rules, First push-through, literal projection), "
-         "fuel monotonicity, and the scoping theorem; whole-algorithm composition is tied by the correspondence and the CPython oracle "
-         "(see level_claimed in MANIFEST.json for what is partial).")
+LEVEL = ("Coq theorems about the executable model `simp` of simplify_chained_calls (Model/Simplify.v): whole-algorithm semantic preservation "
+         "(simplifier_preserves_query_results: every fuel, stack, counter, backend, dataset; queries not mentioning First), every rewrite rule "
+         "semantically sound for all lambdas, all backends and all datasets (fusion rules, First push-through in the direction that holds, literal "
+         "projection), alpha-renaming; the model is tied to the code by the correspondence, First queries by the CPython oracle "
+         "(see level_claimed in MANIFEST.json).")
 TRUSTED = ["Coq 8.16.1 kernel (coqc); no axioms (Print Assumptions: closed under the global context)",
            "harness/tables/simp.py (dispatch surface of simplify_chained_calls read from source)",
            "extraction: ExtrOcamlBasic + ExtrOcamlNativeString; ocaml/driver_simp.ml + ocaml/sx.ml",
